@@ -165,9 +165,20 @@ func srCall(ctx context.Context, id int64, size int, poison bool) (unexpected an
 	return nil
 }
 
+// srInfoX is a second name for the code of INFO (RegisterLevel allows it): whatever a layout remembers about a
+// level, a line must carry the name of its own event's level.
+var srInfoX = log.RegisterLevel(300, "INFOX")
+
+func srLevelOf(id int64) log.Level {
+	if id%5 == 3 {
+		return srInfoX
+	}
+	return log.InfoLevel
+}
+
 // srLog is the single call site: the same statement logs concurrently and alone.
 func srLog(ctx context.Context, id int64, size int) {
-	log.Info(ctx, srTag, log.Int("id", id), log.String("pad", strings.Repeat(string(rune('a'+id%26)), size)),
+	log.Record(ctx, srLevelOf(id), srTag, 1, log.Int("id", id), log.String("pad", strings.Repeat(string(rune('a'+id%26)), size)),
 		log.Ints("items", []int64{id, id + 1, id + 2}), log.Object("user", log.String("name", "u"+strconv.FormatInt(id, 10)), log.Int("n", id)),
 		log.Int("end", id))
 }
@@ -209,7 +220,7 @@ func cmdSyncRec(f hx.Flags, r *hx.Result) {
 	}
 	defer out.Close()
 	written := 0
-	sinks := []string{"console", "slowsink", "slowsink+loggerlayout", "file", "rolling", "console+slowsink"}
+	sinks := []string{"console", "slowsink", "slowsink+loggerlayout", "file", "rolling", "console+slowsink", "file+file"}
 	layouts := []string{"TextLayout", "JSONLayout"}
 	ctx := context.Background()
 	for run := 0; run < runs && !hx.Stopped(); run++ {
@@ -253,6 +264,13 @@ func cmdSyncRec(f hx.Flags, r *hx.Result) {
 			cfg["appender.out.fileDir"] = dir
 			cfg["appender.out.fileName"] = "s.log"
 			cfg["appender.out.layout.type"] = layout
+		case "file+file": // two appenders on one file: each event's line is in it twice, none overwritten
+			for _, a := range []string{"out", "out2"} {
+				cfg["appender."+a+".type"] = "File"
+				cfg["appender."+a+".fileDir"] = dir
+				cfg["appender."+a+".fileName"] = "s.log"
+				cfg["appender."+a+".layout.type"] = layout
+			}
 		case "rolling":
 			cfg["appender.out.type"] = "RollingFile"
 			cfg["appender.out.fileDir"] = dir
@@ -262,7 +280,7 @@ func cmdSyncRec(f hx.Flags, r *hx.Result) {
 			cfg["appender.out.layout.type"] = layout
 		}
 		refs := []sys.Ref{{Ref: "out"}}
-		if sinkKind == "console+slowsink" {
+		if sinkKind == "console+slowsink" || sinkKind == "file+file" {
 			refs = append(refs, sys.Ref{Ref: "out2"})
 		}
 		cfg.AddLogger("lg", "Logger", "", "sync_tag", refs, len(refs) > 1, ex)
@@ -317,12 +335,17 @@ func cmdSyncRec(f hx.Flags, r *hx.Result) {
 			if only != "" {
 				cfg2["logger.lg.appenderRef.ref"] = only
 			}
-			if sinkKind == "file" || sinkKind == "rolling" {
-				cfg2["appender.out.type"] = "Console"
-				delete(cfg2, "appender.out.fileDir")
-				delete(cfg2, "appender.out.fileName")
-				delete(cfg2, "appender.out.rotation")
-				delete(cfg2, "appender.out.maxAge")
+			if sinkKind == "file" || sinkKind == "rolling" || sinkKind == "file+file" {
+				for _, a := range []string{"out", "out2"} {
+					if _, ok := cfg2["appender."+a+".type"]; !ok {
+						continue
+					}
+					cfg2["appender."+a+".type"] = "Console"
+					delete(cfg2, "appender."+a+".fileDir")
+					delete(cfg2, "appender."+a+".fileName")
+					delete(cfg2, "appender."+a+".rotation")
+					delete(cfg2, "appender."+a+".maxAge")
+				}
 			}
 			if err := log.Refresh(cfg2.Map(nil)); err != nil {
 				r.SetInfra("syncrec refresh (alone): %v", err)
@@ -442,6 +465,14 @@ func cmdSyncRec(f hx.Flags, r *hx.Result) {
 			}
 		}
 		bad := 0
+		for line := range got {
+			// absolute part of "byte-identical to the event formatted alone": the level name in the line is the event's own
+			if lid, lvl := sys.ParseLine([]byte(strings.TrimSuffix(line, "\n"))); lid > 0 && want[line] > 0 && !strings.EqualFold(lvl, srLevelOf(lid).Name()) {
+				bad++
+				r.Violate("foreign-level-name:"+sinkKind, desc, "the line of event %d (level %s) shows level %q: %.100q", lid, srLevelOf(lid).Name(), lvl, line)
+				break
+			}
+		}
 		for line, n := range got {
 			if want[line] != n {
 				bad++
